@@ -272,7 +272,7 @@ pub fn run(cfg: &Cfg, out: &mut Out) {
     std::panic::set_hook(Box::new(|_| {}));
     let mut envs = [Env::new(true), Env::new(false)];
     let mut r = cfg.rng(9);
-    let n = cfg.n(3_000, 60_000);
+    let n = cfg.n(6_000, 100_000);
     for i in 0..n {
         let env = &mut envs[if i % 3 == 2 { 1 } else { 0 }];
         one(env, out, &mut r, i);
